@@ -5,9 +5,10 @@ func init() {
 		ID: "C14",
 		Explain: "The alignment semantics over all histories is NOT decided (it quantifies over sequences of feeds). Decided are structural necessary conditions of it, on every path of the code: " +
 			"(MARK) stop times and trips are marked past only while unmarked, with the feed's time; (UPD) StopTime.update assigns every field on every path, from the update's stop id, arrival, departure and track, the feed time, and clears MarkedPast; " +
-			"(PART) Trip.update partitions the trip's current list against this update's stop time updates; entries before the first updated stop are only marked past; every aligned entry is refreshed by StopTime.update on every path; the list is trimmed to len(past)+len(updated); the remaining updates are appended at the tail in order; between createPartition and the end of the mark / refresh loops the list is not given another backing array (the partition points into it); createPartition searches the update's first stop in the whole list by stop id only, past is the prefix before it, aligned pairs point into the journal's own list, new is the tail of the updates. " +
+			"(PART) Trip.update partitions the trip's current list against this update's stop time updates; entries before the first updated stop are only marked past; every aligned entry is refreshed by StopTime.update on every path; the list is trimmed to len(past)+len(updated); the remaining updates are appended at the tail in order; between createPartition and the end of the mark / refresh loops the list is not given another backing array (the partition points into it); in the pairing loop of createPartition the outcome `stop ids differ` leaves the loop; createPartition searches the update's first stop in the whole list by stop id only, past is the prefix before it, aligned pairs point into the journal's own list, new is the tail of the updates. " +
 			"These are the places where each clause of the property is implemented; breaking one breaks the behaviour, but their conjunction is not claimed to imply it.",
 		Rules: []Rule{
+			{Name: "SCAN", Doc: "a loop that does something for each element is not left early (no break out of a processing loop)", MinInstances: 1, Run: func(c *Ctx) { runFullScan(c, journalFns(c), "SCAN") }},
 			{Name: "JST", Doc: "journal stop times: mark-once, update coverage, partition application", MinInstances: 9, Run: runJournalStopTimes},
 		},
 	})
@@ -18,6 +19,7 @@ func init() {
 			"(ACCT) every trip of a feed is applied by Trip.update and recorded as present on every path of the per-trip loop; entries are created only when absent; trips of the previous feed absent from the current one are marked past with the current feed's time and the present-set is replaced each feed; selection skips exactly on start before window, window end before start, or never assigned; Trip.update returns before any store for an assigned trip updated without a vehicle and otherwise records identifier fields, vehicle id, assignment, last-observed, clears MarkedPast and counts the update on every path; marking a trip past visits all its stops; " +
 			"(G6) the result is built from sorted UIDs. Not claimed: that these imply the accounting over histories.",
 		Rules: []Rule{
+			{Name: "SCAN", Doc: "a loop that does something for each element is not left early (no break out of a processing loop)", MinInstances: 1, Run: func(c *Ctx) { runFullScan(c, journalFns(c), "SCAN") }},
 			{Name: "JTR", Doc: "journal trip accounting", MinInstances: 10, Run: runJournalTrips},
 			{Name: "MARK", Doc: "mark once", MinInstances: 1, Run: func(c *Ctx) { markOnce(c, "journal:(*Trip).markPast"); markOnce(c, "journal:(*StopTime).markPast") }},
 			{Name: "G6", Doc: "output order from sorted keys", MinInstances: 1, Run: func(c *Ctx) { runG6(c, c.anchors("journal:BuildJournal")) }},
